@@ -338,13 +338,26 @@ CLAIMED["C07"] = dict(
          "time-reversal / inversion symmetric models: CumDOS, AHC, Ohmic, Berry dipole, optical conductivity and grid tabulation per k.",
     note=TB + "; rotation matrices are floats (coefficients compared to 1e-12); PointGroup construction and get_K_list run as installed code on concrete input")
 
+CLAIMED["C32"] = dict(
+    text="The source of truth are the source libraries' Bloch Hamiltonians; their conventions are stated as external contracts from their "
+         "documentation (PythTB: hop t for (i, j, R) is <i,0|H|j,R> with the Hermitian conjugate implied, positions enter as a k-dependent "
+         "unitary; TBmodels: H(k) = sum_R hop[R] ph(k.R) + h.c. with one block per +-R pair and half of the R = 0 block) and validated "
+         "against the installed libraries by the stand-in. Decided by contracts: get_system_tb_py (real text) executed on stub models with "
+         "SYMBOLIC amplitudes, on-site energies and k -- PythTB spinless (2D two-orbital model with a repeated hop, a home-cell hop and an "
+         "orbital given outside the home cell; 3D three-orbital model with long hops), PythTB spinful (2x2 hopping and on-site blocks), "
+         "TBmodels (blocks at R = 0, (1,0), (1,-2)): for EVERY k the sum over R of Ham_R[R] ph(k.R) equals the source's position-free Bloch "
+         "Hamiltonian (hence equal band energies), the R list contains 0, is closed under R -> -R, without duplicates or components "
+         "along non-periodic directions, Ham_R[-R] = Ham_R[R]^dagger, centres = orbital positions up to lattice vectors and equal to the R-vector shifts, lattice padded. "
+         "Bounded stand-in: random 2D / 3D models built in BOTH real libraries, energies of the imported systems against TBModel.solve_ham / "
+         "Model.eigenval at random k, and the bundled Haldane models of both builders.",
+    note=TB + "; the documented conventions of PythTB 2.0 / TBmodels 1.4 are assumed contracts (validated on random models by the stand-in); installed System_R / Rvectors / NeededData used as they are for the concrete bookkeeping")
+
 NOT_APPLICABLE = {
     "C20": "real-space symmetrisation is a data-dependent floating-point orbit search over irrep objects; its postcondition is only statable through an eigen-solver, no discrete/algebraic kernel is left once externals are abstracted (DESIGN section 7)",
     "C21": "rotation matrices are produced inside sympy (polynomial expansion + evalf); orthogonality/composition live in that CAS computation, outside any contract this engine can generate VCs for (DESIGN section 7)",
     "C24": "orthonormality/frozen-span statements reduce entirely to assumed contracts of eigh/SVD inside an iteration; the only code-side kernel (window bookkeeping) is covered under C15 (DESIGN section 7)",
     "C28": "agreement only up to discretisation error on converged grids: a numerical-analysis statement, not a postcondition of a call (DESIGN section 7)",
     "C31": "'to finite-difference accuracy' is a truncation-error statement; no contract in reach expresses it (DESIGN section 7)",
-    "C32": "the source of truth is PythTB/TBmodels' own band structure; needs contracts on those external libraries' internals (DESIGN section 7)",
 }
 
 NOT_BUILT = {}
